@@ -262,6 +262,44 @@ func c10(c *h.Ctx) {
 			c.Hold(h.Hex(k.tag) == k.snap, "encode.tag_not_aliased", k.in, h.Hex(k.tag), k.snap)
 			c.Case("retained-tags", k.in, true)
 		}
+		// the same (long-lived) packagers decode all the tags; every decoded frame is HELD, then compared with
+		// what a fresh packager decodes: no state may leak from one Decode to the next or into a returned frame.
+		type dec struct{ got, want, in string }
+		var heldA []*flv.AudioFrame
+		var heldV []*flv.VideoFrame
+		var wants []dec
+		for _, k := range keep {
+			tag := h.UnHex(k.snap)
+			if k.aud {
+				f, err := ap.Decode(tag)
+				if err == nil {
+					heldA = append(heldA, f)
+					wants = append(wants, dec{"", audioDec(tag), k.in})
+				}
+			} else {
+				f, err := vp.Decode(tag)
+				if err == nil {
+					heldV = append(heldV, f)
+					wants = append(wants, dec{"", videoDec(tag), k.in})
+				}
+			}
+		}
+		ia, iv := 0, 0
+		for i, k := range keep {
+			_ = i
+			if k.aud && ia < len(heldA) {
+				f := heldA[ia]
+				ia++
+				got := "ok " + aFrame{uint8(f.SoundFormat), uint8(f.SoundRate), uint8(f.SoundSize), uint8(f.SoundType), uint8(f.Trait), f.AudioLevel, f.Raw}.str()
+				c.Hold(got == audioDec(h.UnHex(k.snap)), "decode.frame_not_aliased", k.in, got, audioDec(h.UnHex(k.snap)))
+			} else if !k.aud && iv < len(heldV) {
+				f := heldV[iv]
+				iv++
+				got := "ok " + vFrame{uint8(f.CodecID), uint8(f.FrameType), uint8(f.Trait), uint32(f.CTS), f.Raw}.str()
+				c.Hold(got == videoDec(h.UnHex(k.snap)), "decode.frame_not_aliased", k.in, got, videoDec(h.UnHex(k.snap)))
+			}
+		}
+		_ = wants
 	}
 
 	// 0. fixed regression cases (F7, F8, F9) — the formerly failing inputs.
